@@ -16,7 +16,9 @@ def specs(tier):
     ex = ["contours", "meshmeta", "regions"]
     S = [gridlab.tokamak_spec("lsn", extract=ex),
          gridlab.tokamak_spec("cdn", options={"orthogonal": False}, extract=ex),
-         gridlab.circular_spec(options={"poloidal_spacing_method": "linear", "finecontour_Nfine": 200}, extract=ex)]
+         gridlab.circular_spec(options={"poloidal_spacing_method": "linear", "finecontour_Nfine": 200}, extract=ex),
+         # poloidal resolution not mirror-symmetric about the X-point where the core y-group closes
+         gridlab.tokamak_spec("cdn", options={"ny_inner_sol": 4, "ny_outer_sol": 6}, extract=ex)]
     if tier == "thorough":
         S += [gridlab.tokamak_spec("ldn", extract=ex), gridlab.tokamak_spec("udn", options={"orthogonal": False}, extract=ex),
               gridlab.tokamak_spec("usn", options={"y_boundary_guards": 2}, extract=ex),
